@@ -9,10 +9,18 @@ type Harness struct {
 	Race     bool      // a -race variant is needed by some check
 }
 
+// Part: one harness function contributing to a check (a property may span several packages).
+type Part struct {
+	Harness string
+	Func    string
+	Race    bool // also run this part in the -race binary
+}
+
 type Check struct {
 	ID               string
 	Harness          string
 	Func             string // name registered in the harness
+	Parts            []Part // when set, used instead of Harness/Func
 	Category         string // evidence level
 	Workers          int
 	GoMaxProcs       int
@@ -43,6 +51,8 @@ func init() {
 }
 
 func init() {
+	harnesses["sio"] = &Harness{Name: "sio", Pkg: "sio", InPkgSrc: "harness/inpkg/sio", Race: true,
+		Rewrites: []Rewrite{{Dir: "sio", Shim: true, VRange: true}, {Dir: "crew", Shim: true}}}
 	harnesses["mcrew"] = &Harness{Name: "mcrew", Pkg: "cmd/mcrew", InPkgSrc: "harness/inpkg/mcrew", Race: true,
 		Rewrites: []Rewrite{{Dir: "cmd/mcrew", Shim: true, VRange: true}, {Dir: "crew", Shim: true}}}
 }
@@ -64,7 +74,7 @@ func init() {
 }
 
 var checks = map[string]*Check{
-	"C17": {ID: "C17", Harness: "mcrew", Func: "C17mcrew", Category: "model_checking", QuickDeadline: 240, ThoroughDeadline: 1500, GoMaxProcs: 1,
+	"C17": {ID: "C17", Parts: []Part{{Harness: "mcrew", Func: "C17mcrew", Race: true}, {Harness: "sio", Func: "C17sio", Race: true}}, Category: "model_checking", QuickDeadline: 240, ThoroughDeadline: 1500, GoMaxProcs: 1,
 		Engine: "E2", DesignRef: "6/C17",
 		Technique: "stateless schedule exploration (controlled cooperative scheduler over shimmed sync/time, virtual clock, DFS with deviation bounding) of the real timer implementations, with a per-id monitor automaton on every execution",
 		LevelText: "For every short request scenario (requests before, during - from the firing handler - and after a firing) every schedule of requester, timer goroutines and timer-fire events within the deviation bound is executed on the real Timers code under a controlled scheduler with virtual time; a monitor checks at-most-once, never-early, never-after-successful-cancel, exactly-once at the end of time, pending-set equality and id reuse.",
